@@ -6,6 +6,7 @@ import (
 	"time"
 
 	"github.com/go-logr/logr"
+	apimachineryerrors "k8s.io/apimachinery/pkg/api/errors"
 	"k8s.io/apimachinery/pkg/runtime"
 	ctrl "sigs.k8s.io/controller-runtime"
 	"sigs.k8s.io/controller-runtime/pkg/client"
@@ -44,7 +45,11 @@ func (r *revisionReconciler) Reconcile(
 			Name:      prev.Name,
 			Namespace: objectSet.ClientObject().GetNamespace(),
 		}
-		if err := r.client.Get(ctx, key, prevObjectSet.ClientObject()); err != nil {
+		if err := r.client.Get(ctx, key, prevObjectSet.ClientObject()); apimachineryerrors.IsNotFound(err) {
+			// Previous revisions may be garbage collected in the meantime.
+			// They can no longer contribute a revision number, waiting for them would block this revision forever.
+			continue
+		} else if err != nil {
 			return res, fmt.Errorf("getting previous revision: %w", err)
 		}
 
